@@ -103,7 +103,11 @@ class ContractFile:
             if lines[i].strip().startswith("//@ obligation:"):
                 d = {}
                 last = None
-                while i < len(lines) and lines[i].strip().startswith("//@"):
+                first = True
+                while i < len(lines) and lines[i].strip().startswith("//@") and not lines[i].strip().startswith("//@@"):
+                    if not first and lines[i].strip().startswith("//@ obligation:"):
+                        break
+                    first = False
                     s = lines[i].strip()[3:].strip()
                     m = re.match(r"^(\w+)\s*:\s*(.*)$", s)
                     if m:
@@ -258,21 +262,47 @@ def find_item(src, locator, mask=None, lo=0, hi=None):
         if end is None:
             raise LookupError("anchor lost (no end): " + locator)
         if idx == len(parts) - 1:
+            # include a leading visibility qualifier (pub / pub(crate) / pub(super))
+            mv = re.search(r"(pub(?:\([a-z:]+\))?\s+(?:(?:const|unsafe|async)\s+)*)$", mask[max(lo, start - 40):start])
+            mc = re.search(r"((?:(?:const|unsafe|async)\s+)+)$", mask[max(lo, start - 40):start])
+            if mv:
+                start -= len(mv.group(1))
+            elif mc:
+                start -= len(mc.group(1))
             return start, end
         lo, hi = body_open + 1, end - 1
     raise AssertionError
 
 
-def extract_item(relpath, locator, root=None):
+def _read_src(relpath, root=None):
     root = root or REPO
-    src = (root / relpath).read_text()
+    if not str(relpath).startswith("src/"):
+        relpath = "src/" + str(relpath)
+    f = root / relpath
+    if not f.exists():
+        raise LookupError("anchor lost: file %s does not exist" % relpath)
+    return f.read_text()
+
+
+def extract_item(relpath, locator, root=None, with_attrs=False):
+    src = _read_src(relpath, root)
     s, e = find_item(src, locator)
+    if with_attrs:
+        ls = src.rfind("\n", 0, s) + 1
+        while ls > 0:
+            prev_end = ls - 1
+            prev_start = src.rfind("\n", 0, prev_end) + 1
+            prev = src[prev_start:prev_end].strip()
+            if prev.startswith("#[") or (prev and _in_attr(src, prev_start)):
+                ls = prev_start
+            else:
+                break
+        s = ls
     return src[s:e]
 
 
 def fn_line(relpath, locator, root=None):
-    root = root or REPO
-    src = (root / relpath).read_text()
+    src = _read_src(relpath, root)
     s, e = find_item(src, locator)
     return src.count("\n", 0, s) + 1, sha256(src[s:e])[:16]
 
@@ -300,7 +330,7 @@ def expand_bodies(text, root, record):
                     raise LookupError("anchor lost: subst %r not found in %s" % (a, locator))
                 new = new.replace(a, b)
                 drops.append("%s=>%s" % (a, b))
-        record.append({"source": "src/" + rel if not rel.startswith("src/") else rel, "item": locator,
+        record.append({"source": ("src/" + rel) if not rel.startswith("src/") else rel, "item": locator,
                        "sha256_of_source_span": h, "renamed_to": newname, "substitutions": drops})
         prefix = "pub " if "pub" in opts.split() else ""
         return prefix + new
@@ -516,7 +546,11 @@ class VerusUnit:
             if lines[i].strip().startswith("//@ obligation:"):
                 d = {}
                 last = None
-                while i < len(lines) and lines[i].strip().startswith("//@"):
+                first = True
+                while i < len(lines) and lines[i].strip().startswith("//@") and not lines[i].strip().startswith("//@@"):
+                    if not first and lines[i].strip().startswith("//@ obligation:"):
+                        break
+                    first = False
                     s = lines[i].strip()[3:].strip()
                     m = re.match(r"^(\w+)\s*:\s*(.*)$", s)
                     if m:
@@ -542,7 +576,8 @@ class VerusUnit:
         """Assemble the single verus file. Returns text."""
         out = ["// GENERATED on every run by /verif/driver/verif.py from %s and /repo -- do not edit\n"
                "#![allow(unused_imports, dead_code, unused_variables, unused_mut, unused_parens, non_snake_case)]\n"
-               "use vstd::prelude::*;\n" % self.path.name]
+               % self.path.name]
+        prelude_done = [False]
         sections = re.split(r"^@@ *", self.text, flags=re.M)
         body = []
         for sec in sections[1:]:
@@ -553,13 +588,16 @@ class VerusUnit:
             if head.startswith("header"):
                 out.append(rest)
                 continue
+            if not prelude_done[0]:
+                out.append("use vstd::prelude::*;\n")
+                prelude_done[0] = True
             if head in ("prelude", "raw"):
                 body.append(rest)
                 continue
             if head.startswith("item:"):
                 m = re.match(r"item:\s*(\S+)\s*::\s*(.*?)(?:\s+\[(.*)\])?$", head)
                 rel, locator, opts = m.group(1), m.group(2).strip(), (m.group(3) or "")
-                item = extract_item(rel, locator)
+                item = extract_item(rel, locator, with_attrs=("attrs" in opts.split()))
                 h = sha256(item)
                 new = item
                 applied = []
@@ -607,6 +645,8 @@ def parse_splices(rest):
     sp = []
     cur = None
     for line in rest.split("\n"):
+        if line.strip().startswith("//@"):
+            continue
         if line.startswith("%"):
             cur = {"head": line[1:].strip(), "text": []}
             sp.append(cur)
@@ -615,6 +655,20 @@ def parse_splices(rest):
     for s in sp:
         s["text"] = "\n".join(s["text"]).rstrip() + "\n"
     return sp
+
+
+def _in_attr(item, pos):
+    """is position `pos` inside a multi-line #[...] attribute?"""
+    k = item.rfind("#[", 0, pos)
+    if k < 0:
+        return False
+    depth = 0
+    for i in range(k + 1, pos):
+        if item[i] == "[":
+            depth += 1
+        elif item[i] == "]":
+            depth -= 1
+    return depth > 0
 
 
 def apply_splice(item, sp, applied, locator):
@@ -636,7 +690,31 @@ def apply_splice(item, sp, applied, locator):
         return item.replace(old, new)
     kind, _, arg = head.partition(" ")
     arg = arg.strip()
-    if kind in ("after-signature", "body-start", "before-fn"):
+    if kind == "after-line":
+        k = item.find(arg)
+        if k < 0:
+            raise LookupError("anchor lost: line containing %r not found in %s" % (arg, locator))
+        e = item.find("\n", k)
+        return item[: e + 1] + sp["text"] + item[e + 1:]
+    if kind == "drop-fn":
+        m = re.search(r"\bfn\s+" + re.escape(arg) + r"\b", mask)
+        if not m:
+            raise LookupError("anchor lost: fn %s in %s" % (arg, locator))
+        k0 = mask.find("{", m.end())
+        k1 = match_brace(mask, k0)
+        # start: go back over `pub`, and preceding attribute lines
+        ls = item.rfind("\n", 0, m.start()) + 1
+        while True:
+            prev_end = ls - 1
+            prev_start = item.rfind("\n", 0, prev_end) + 1
+            prev = item[prev_start:prev_end].strip()
+            if prev.startswith("#[") or prev.startswith("#![") or (prev and _in_attr(item, prev_start)):
+                ls = prev_start
+            else:
+                break
+        applied.append("fn %s dropped (not extracted: %s)" % (arg, sp["text"].strip() or "outside the verifier's subset"))
+        return item[:ls] + item[k1 + 1:]
+    if kind in ("after-signature", "body-start", "before-fn", "before-end"):
         m = re.search(r"\bfn\s+" + re.escape(arg) + r"\b", mask)
         if not m:
             raise LookupError("anchor lost: fn %s in %s" % (arg, locator))
@@ -654,6 +732,9 @@ def apply_splice(item, sp, applied, locator):
             elif mask[k] == "{" and depth == 0:
                 break
             k += 1
+        if kind == "before-end":
+            k1 = match_brace(mask, k)
+            return item[:k1] + sp["text"] + item[k1:]
         if kind == "after-signature":
             return item[:k] + "\n" + sp["text"] + item[k:]
         return item[: k + 1] + "\n" + sp["text"] + item[k + 1:]
@@ -744,7 +825,7 @@ def run_verus_unit(unit, scratch, obs, results, keep=False):
             hard_error = hard_error or b[:1500]
     for ob in obs:
         fs = failing.get(ob.harness, [])
-        if hard_error and not vr:
+        if hard_error:
             results[ob.id] = {"state": "undecided", "reason": "ANCHOR-LOST / verus front-end error: " + hard_error[:400],
                               "seconds": secs}
             continue
